@@ -112,16 +112,17 @@ def keyState (f : FState) (k : Nat) : String :=
       | none => "?"
   String.intercalate " " ([s!"k{k} n{gens.length}"] ++ cells ++ [s!"a={a}", s!"h={s.hits k}"])
 
-def proxyState (p : Proxy) : String :=
+def proxyState (s : PState) (i : Nat) (p : Proxy) : String :=
+  let cl := (tasksOf s i .cleanup).length
   match p.call with
-  | some c => s!"{if c.dead then "d" else "r"}{c.tasks.length}/{c.descs.length}+{p.cleanup.length}"
-  | none => s!"i{p.cleanup.length}"
+  | some c => s!"{if c.dead then "d" else "r"}{c.started}/{c.descs.length}+{cl}"
+  | none => s!"i{cl}"
 
 def world (d : DState) : String :=
   let f := d.p.f
   let (w, t, r) := counts f.tab
   let keys := (List.range d.nkeys).map (keyState f)
-  let px := if d.p.px.isEmpty then "-" else String.intercalate " " (d.p.px.map proxyState)
+  let px := if d.p.px.isEmpty then "-" else String.intercalate " " (d.p.px.zipIdx.map fun (p, i) => proxyState d.p i p)
   String.intercalate " | " (keys ++ [s!"fd w={w} t={t} r={r}", s!"px {px}"])
 
 def stepLine (d : DState) (l : String) : DState × String :=
